@@ -6,8 +6,8 @@ from pathwalk import const_val
 import witness
 
 EXPLANATION = ("Guard dominance in ServerHashVerification::verify_server_cert: every path that returns ServerCertVerified::assertion() carries, "
-               "with the right polarity, comparator and constant: !(now < not_before), !(now > not_after), (not_after - not_before) is Some(x) && "
-               "x <= SELF_MAX_VALIDITY (= 14 days, evaluated), algorithm == id-ecPublicKey, parameters is Some(Ok(oid)) && oid == prime256v1, "
+               "with the right polarity, comparator and constant: !(now < not_before), !(now > not_after), (not_after - not_before) ok(x) && "
+               "x <= SELF_MAX_VALIDITY (= 14 days, evaluated), algorithm == id-ecPublicKey, parameters ok(Ok(oid)) && oid == prime256v1, "
                "hashes.contains(Sha256(end_entity)). Who-may-assert: the only callers of ServerCertVerified::assertion() are the two verifiers, "
                "nobody calls HandshakeSignatureValid::assertion(); signature checks delegate to rustls with the provider's algorithms. Wiring: "
                "with_server_certificate_hashes installs ServerHashVerification over an empty root store, with_native_certs installs no custom "
@@ -28,18 +28,18 @@ def run(ctx):
         acc = [p for p in ps if "ServerCertVerified::assertion()" in path_sig(p)[1]]
         rej = [p for p in ps if p.leaf[0] == "return" and "assertion" not in path_sig(p)[1]]
         ctx.check("C10-R1", "one accepting path", len(acc) == 1 and path_sig(acc[0])[1] == "return Result::Ok(ServerCertVerified::assertion())", "verify_server_cert has %d accepting paths" % len(acc), where(f))
-        NOW = r"&ASN1Time::new\(Option::expect\(Option::and_then\(Result::ok\(<T as TryInto<U>>::try_into\(UnixTime::as_secs\(&now\)\)\),closure:.*?\),[^()]*\)\)"
-        VAL = r"TbsCertificate::validity\(&\*?ok\(<X509Certificate as FromDer<X509Error>>::from_der\(&\*?(<CertificateDer as AsRef<\[u8\]>>::as_ref\(&\*end_entity\)|end_entity)\)\)\.1(\.tbs_certificate)?\)"
+        NOW = r"ASN1Time::new\(Option::expect\(Option::and_then\(Result::ok\(<T as TryInto<U>>::try_into\(UnixTime::as_secs\(now\)\)\),closure:.*?\),[^()]*\)\)"
+        VAL = r"TbsCertificate::validity\(ok\(<X509Certificate as FromDer<X509Error>>::from_der\((<CertificateDer as AsRef<\[u8\]>>::as_ref\(end_entity\)|end_entity)\)\)\.1(\.tbs_certificate)?\)"
         guards = {
-            "not before": r"^!PartialOrd::lt\(%s,&\*?TbsCertificate::validity\(.*from_der\(.*\)\)\.1\)\.not_before\)$" % NOW,
-            "not after": r"^!PartialOrd::gt\(%s,&\*?TbsCertificate::validity\(.*from_der\(.*\)\)\.1\)\.not_after\)$" % NOW,
-            "validity period computable": r"^<ASN1Time as Sub>::sub\(\*?TbsCertificate::validity\(.*from_der\(.*\)\)\.1\)\.not_after,ok\(.*from_der\(.*end_entity.*\)\)\.1\.validity\.not_before\) is Some$",
-            "validity period <= 14 days": r"^PartialOrd::le\(&\(<ASN1Time as Sub>::sub\(.*\.not_after,.*\.not_before\) as Some\)\.0,&\*?(ServerHashVerification::SELF_MAX_VALIDITY|SignedDuration\{1209600,)",
-            "key algorithm == id-ecPublicKey": r"^!PartialEq::ne\(&\*?TbsCertificate::public_key\(.*\)\.algorithm\.algorithm,&OID_KEY_TYPE_EC_PUBLIC_KEY\)$",
-            "curve parameters present": r"^Option::map\(Option::as_ref\(&\*?TbsCertificate::public_key\(.*\)\.algorithm\.parameters\),closure:.*\) is Some$",
-            "curve parameters are an OID": r"^\(Option::map\(Option::as_ref\(.*\.algorithm\.parameters\),closure:.*\) as Some\)\.0 is Ok$",
-            "curve == prime256v1": r"^<Oid as PartialEq>::eq\(&\(\(Option::map\(.*\) as Some\)\.0 as Ok\)\.0,&OID_EC_P256\)$",
-            "pinned hash of the leaf": r"^BTreeSet::contains\(&\*?self\.hashes,&Sha256Digest\(<D as Digest>::digest\(&\*?(<CertificateDer as AsRef<\[u8\]>>::as_ref\(&\*end_entity\)|end_entity)\)\)\)$",
+            "not before": r"^!PartialOrd::lt\(%s,TbsCertificate::validity\(.*from_der\(.*\)\)\.1\)\.not_before\)$" % NOW,
+            "not after": r"^!PartialOrd::gt\(%s,TbsCertificate::validity\(.*from_der\(.*\)\)\.1\)\.not_after\)$" % NOW,
+            "validity period computable": r"^<ASN1Time as Sub>::sub\(TbsCertificate::validity\(.*from_der\(.*\)\)\.1\)\.not_after,ok\(.*from_der\(.*end_entity.*\)\)\.1\.validity\.not_before\) ok$",
+            "validity period <= 14 days": r"^PartialOrd::le\(ok\(<ASN1Time as Sub>::sub\(.*\.not_after,.*\.not_before\)\),(ServerHashVerification::SELF_MAX_VALIDITY|SignedDuration\{1209600,)",
+            "key algorithm == id-ecPublicKey": r"^!PartialEq::ne\(TbsCertificate::public_key\(.*\)\.algorithm\.algorithm,OID_KEY_TYPE_EC_PUBLIC_KEY\)$",
+            "curve parameters present": r"^Option::map\(Option::as_ref\(TbsCertificate::public_key\(.*\)\.algorithm\.parameters\),closure:.*\) ok$",
+            "curve parameters are an OID": r"^ok\(Option::map\(Option::as_ref\(.*\.algorithm\.parameters\),closure:.*\)\) ok$",
+            "curve == prime256v1": r"^<Oid as PartialEq>::eq\(ok\(ok\(Option::map\(.*\)\)\),OID_EC_P256\)$",
+            "pinned hash of the leaf": r"^BTreeSet::contains\(self\.hashes,Sha256Digest\(<D as Digest>::digest\((<CertificateDer as AsRef<\[u8\]>>::as_ref\(end_entity\)|end_entity)\)\)\)$",
         }
         if acc:
             atoms = path_sig(acc[0])[0]
@@ -49,7 +49,7 @@ def run(ctx):
                           "the accepting path of ServerHashVerification::verify_server_cert lacks the guard `%s` (or its polarity / comparator / operand changed); path guards: %s" % (name, [a[:90] for a in atoms]), where(f),
                           key="guard:" + name)
             ctx.sample({"rule": "C10-R1", "accepting_path_guards": [a[:160] for a in atoms]})
-            extra = [a for a in atoms if not any(re.search(rx, a) for rx in guards.values()) and not a.endswith("from_der(&*end_entity) ok") and "from_der(" not in a]
+            extra = [a for a in atoms if not any(re.search(rx, a) for rx in guards.values()) and not a.endswith("from_der(end_entity) ok") and "from_der(" not in a]
             ctx.check("C10-R1", "no unexplained guard", not extra, "cannot decide: unrecognised guard(s) on the accepting path: %s" % extra, where(f))
         # every other return is an error
         bad = [path_sig(p)[1] for p in rej if not re.match(r"^return (Result::Err\(|Err\(from\()", path_sig(p)[1])]
@@ -85,7 +85,7 @@ def run(ctx):
         for m, callee in (("verify_tls12_signature", "verify_tls12_signature"), ("verify_tls13_signature", "verify_tls13_signature")):
             g = A.fn("<wtransport::tls::client::%s as rustls::client::danger::ServerCertVerifier>::%s" % (ver, m))
             sg = [path_sig(p)[1] for p in nonpanic(walk(g))]
-            ctx.check("C10-R3", "%s::%s delegates" % (ver, m), sg == ["return %s(&*message,&*cert,&*dss,&*self.supported_algorithms)" % callee] or (len(sg) == 1 and re.match(r"^return %s\(&\*message,&\*cert,&\*dss,&\*?self\.supported_algorithms\)$" % callee, sg[0])),
+            ctx.check("C10-R3", "%s::%s delegates" % (ver, m), sg == ["return %s(message,cert,dss,self.supported_algorithms)" % callee] or (len(sg) == 1 and re.match(r"^return %s\(message,cert,dss,self\.supported_algorithms\)$" % callee, sg[0])),
                       "%s::%s does not delegate to rustls::crypto::%s with self.supported_algorithms: %s" % (ver, m, callee, sg), where(g))
     g = A.find1(r"^wtransport::tls::client::ServerHashVerification::new$")
     sg = [path_sig(p)[1] for p in nonpanic(walk(g))]
@@ -106,9 +106,9 @@ def run(ctx):
     g = A.fn("wtransport::tls::client::build_default_tls_config")
     with depth_limit(6):
         ps = nonpanic(walk(g))
-        some = [p for p in ps if any(a == "custom_verifier is Some" for a in path_sig(p)[0])]
-        none = [p for p in ps if any(a == "custom_verifier is None" for a in path_sig(p)[0])]
-        ok1 = bool(some) and all(any(e[0] == "call" and e[1].endswith("DangerousClientConfig::set_certificate_verifier") and canon(e[2][-1]).lstrip("(").startswith("custom_verifier as Some).0") for e in p.events) for p in some)
+        some = [p for p in ps if any(a == "custom_verifier ok" for a in path_sig(p)[0])]
+        none = [p for p in ps if any(a == "custom_verifier fails" for a in path_sig(p)[0])]
+        ok1 = bool(some) and all(any(e[0] == "call" and e[1].endswith("DangerousClientConfig::set_certificate_verifier") and canon(e[2][-1]).lstrip("(").startswith("ok(custom_verifier)") for e in p.events) for p in some)
         ok2 = bool(none) and not any("set_certificate_verifier" in e for p in none for e in event_strs(p))
         roots = all(any(re.match(r"^ConfigBuilder<ClientConfig, WantsVerifier>::with_root_certificates\(.*,root_store\)$", e) or "with_root_certificates(" in e and e.endswith(",root_store)") for e in event_strs(p)) for p in ps)
     ctx.check("C10-R4", "verifier installed iff Some", ok1 and ok2, "client build_default_tls_config does not install the custom verifier exactly when it is Some", where(g))
